@@ -921,7 +921,7 @@ def part_model(ctx, N):
             xm = np.array([int(v) / SCALE for v in dec_list(parts[0])])
             Acm = np.array([[int(v) / SCALE for v in dec_list(r)] for r in parts[3].split(';')])
             err = np.abs(xm - it['x1']).max() / max(1.0, np.abs(xm).max())
-            ctx.rel_err(0.0)
+            ctx.rel_err(err)
             Ac = ml.levels[-1].A.toarray()
             if parts[1] != 'true':
                 ctx.corr('c02_cycle: A0 not exactly symmetric', case, parts[1], 'n/a')
